@@ -567,7 +567,10 @@ class BackendZ3(Backend):
             return z3.BoolRef(z3.Z3_mk_true(self._context.ref()), self._context)
         if obj is False:
             return z3.BoolRef(z3.Z3_mk_false(self._context.ref()), self._context)
-        if isinstance(obj, numbers.Number | str) or (hasattr(obj, "__module__") and obj.__module__ in ("z3", "z3.z3")):
+        if isinstance(obj, str):
+            # a Python string stands for a string value; z3py would read escape sequences in it if it were passed raw
+            return z3.StringVal(string_to_z3_literal(obj), ctx=self._context)
+        if isinstance(obj, numbers.Number) or (hasattr(obj, "__module__") and obj.__module__ in ("z3", "z3.z3")):
             return obj
         log.debug("BackendZ3 encountered unexpected type %s", type(obj))
         raise BackendError(f"unexpected type {type(obj)} encountered in BackendZ3")
@@ -988,11 +991,11 @@ class BackendZ3(Backend):
                 # Construct the extra constraint so we don't get the same result anymore
                 if i + 1 != n:
                     if len(exprs) == 1:
-                        solver.add(exprs[0] != r[0])
+                        solver.add(exprs[0] != self._convert(r[0]))
                     else:
                         solver.add(
                             self._op_raw_Not(
-                                self._op_raw_And(*[(ex == ex_v) for ex, ex_v in zip(exprs, r, strict=False)])
+                                self._op_raw_And(*[(ex == self._convert(ex_v)) for ex, ex_v in zip(exprs, r, strict=False)])
                             )
                         )
                     model = None
